@@ -22,6 +22,8 @@ func propC11(c *Ctx, r *Report) {
 	ruleAllLoopsComplete(c, r, "C11/payout-loops-complete", c.fn("node.Pegnetd.ApplyFactoidBlock"), "every factoid transaction of the block is scanned for burns")
 	r.rule("C11/previous-winners-query", 1, "previous winners are those of the newest graded block below the height")
 	rulePreviousWinnersQuery(c, r, buildSQLCat(c), "C11/previous-winners-query")
+	r.rule("C11/no-address-cache", 2, "a winner is paid at the address decoded from its own record")
+	ruleNoAddressCache(c, r, "C11/no-address-cache")
 	r.rule("C11/payout-loops-complete", 3, "every winner and every burn is paid, or the block fails")
 	ruleLoopCompletes(c, r, "C11/payout-loops-complete", c.fn("node.Pegnetd.ApplyGradedOPRBlock"), "pegnet.Pegnet.AddToBalance", "every winning OPR is paid")
 	ruleLoopCompletes(c, r, "C11/payout-loops-complete", c.fn("node.Pegnetd.ApplyGradedSPRBlock"), "pegnet.Pegnet.AddToBalance", "every winning SPR is paid")
@@ -103,61 +105,9 @@ func propC11(c *Ctx, r *Report) {
 	}
 
 	// factoid burn decision table
-	r.rule("C11/burn-table", 2, "a factoid transaction is a burn in exactly one cell of its shape table")
 	afb := c.fn("node.Pegnetd.ApplyFactoidBlock")
-	ncell, nburn := 0, 0
-	acc := newTableAcc()
+	ruleBurnTable(c, r, "C11/burn-table")
 	var bad []string
-	for _, nec := range []int64{0, 1, 2} {
-		for _, nin := range []int64{0, 1, 2} {
-			for _, nout := range []int64{0, 1} {
-				for _, addrEq := range []bool{true, false} {
-					for _, amt := range []int64{0, 7} {
-						sc := &Scenario{
-							Lens:  map[string]AVal{"factom.FactoidTransaction.ECOutputs": cInt(nec), "factom.FactoidTransaction.FCTInputs": cInt(nin), "factom.FactoidTransaction.FCTOutputs": cInt(nout)},
-							Paths: map[string]AVal{"factom.FactoidTransactionIO.Address": sym("outaddr"), "node.BurnRCD": sym("burnrcd"), "factom.FactoidTransactionIO.Amount": cUint(uint64(amt))},
-							Calls: map[string]AVal{"isDone": cBool(false)},
-							Order: func(a, b AVal) (int, bool) {
-								if a.K == ASym && b.K == ASym && a.Sym != b.Sym {
-									if addrEq {
-										return 0, true
-									}
-									return 1, true
-								}
-								return 0, false
-							},
-							MaxDepth: 0,
-						}
-						t, _ := acc.run(c, r, afb, sc)
-						ncell++
-						registered := false
-						for _, lc := range t.Calls {
-							if lc.Callee == "builtin.append" && strings.Contains(valuePath(lc.Instr.Common().Args[0]), "burns") {
-								registered = true
-							}
-						}
-						// fall back: any append in the first loop
-						if !registered {
-							for _, lc := range t.Calls {
-								if lc.Callee == "builtin.append" {
-									registered = true
-								}
-							}
-						}
-						want := nec == 1 && nin == 1 && nout == 0 && addrEq && amt == 0
-						if registered {
-							nburn++
-						}
-						if registered != want && len(bad) < 4 {
-							bad = append(bad, fmt.Sprintf("ECOutputs=%d FCTInputs=%d FCTOutputs=%d outputIsBurnAddress=%v outputAmount=%d: burn registered=%v, expected %v", nec, nin, nout, addrEq, amt, registered, want))
-						}
-					}
-				}
-			}
-		}
-	}
-	acc.report(c, r, "C11/burn-table", afb)
-	r.check(len(bad) == 0 && nburn == 1, "C11/burn-table", "ApplyFactoidBlock transaction shape table", c.pos(afb.Pos()), fmt.Sprintf("%d cells, burn registered in exactly 1", ncell), strings.Join(bad, "; ")+fmt.Sprintf(" (%d cells register a burn)", nburn))
 	// burn credit provenance
 	adds := c.findCallsFam(afb, "pegnet.Pegnet.AddToBalance")
 	bad = nil
@@ -253,8 +203,15 @@ func propC11(c *Ctx, r *Report) {
 	r.rule("C11/previous-winners", 1, "previous winners are read for the block being graded")
 	gr := c.fn("node.Pegnetd.Grade")
 	for _, ci := range findCalls(gr, "pegnet.Pegnet.SelectPreviousWinners") {
-		okk := valuePath(ci.Common().Args[2]) == "block.Height"
-		r.check(okk, "C11/previous-winners", "SelectPreviousWinners(block.Height)", c.ipos(ci), "", "previous winners read for "+valuePath(ci.Common().Args[2]))
+		// by type and origin, not by name: the Height field of the entry block Grade was given
+		okk := false
+		a := unwrapConv(ci.Common().Args[2])
+		if u, ok := a.(*ssa.UnOp); ok && typePath(u) == "factom.EBlock.Height" {
+			if fa, ok := u.X.(*ssa.FieldAddr); ok && c.rootParamOf(fa.X, gr, 0) != nil {
+				okk = true
+			}
+		}
+		r.check(okk, "C11/previous-winners", "SelectPreviousWinners(block.Height)", c.ipos(ci), "", "previous winners read for "+stablePath(a, 0))
 		// result reaches NewGrader
 		ng := findCalls(gr, "github.com/pegnet/pegnet/modules/grader.NewGrader")
 		flows := false
@@ -523,4 +480,64 @@ func execReachAvoiding(st *fnState, from *ssa.BasicBlock, avoid map[*ssa.BasicBl
 		}
 	}
 	return seen
+}
+
+// ruleBurnTable: decision table of ApplyFactoidBlock over the shape of a factoid transaction - a burn is registered
+// in exactly one cell (shared by C11 and C04).
+func ruleBurnTable(c *Ctx, r *Report, rule string) {
+	r.rule(rule, 1, "a factoid transaction is a burn in exactly one cell of its shape table")
+	afb := c.fn("node.Pegnetd.ApplyFactoidBlock")
+	ncell, nburn := 0, 0
+	acc := newTableAcc()
+	var bad []string
+	for _, nec := range []int64{0, 1, 2} {
+		for _, nin := range []int64{0, 1, 2} {
+			for _, nout := range []int64{0, 1} {
+				for _, addrEq := range []bool{true, false} {
+					for _, amt := range []int64{0, 7} {
+						sc := &Scenario{
+							Lens:  map[string]AVal{"factom.FactoidTransaction.ECOutputs": cInt(nec), "factom.FactoidTransaction.FCTInputs": cInt(nin), "factom.FactoidTransaction.FCTOutputs": cInt(nout)},
+							Paths: map[string]AVal{"factom.FactoidTransactionIO.Address": sym("outaddr"), "node.BurnRCD": sym("burnrcd"), "factom.FactoidTransactionIO.Amount": cUint(uint64(amt))},
+							Calls: map[string]AVal{"isDone": cBool(false)},
+							Order: func(a, b AVal) (int, bool) {
+								if a.K == ASym && b.K == ASym && a.Sym != b.Sym {
+									if addrEq {
+										return 0, true
+									}
+									return 1, true
+								}
+								return 0, false
+							},
+							MaxDepth: 0,
+						}
+						t, _ := acc.run(c, r, afb, sc)
+						ncell++
+						registered := false
+						for _, lc := range t.Calls {
+							if lc.Callee == "builtin.append" && strings.Contains(valuePath(lc.Instr.Common().Args[0]), "burns") {
+								registered = true
+							}
+						}
+						// fall back: any append in the first loop
+						if !registered {
+							for _, lc := range t.Calls {
+								if lc.Callee == "builtin.append" {
+									registered = true
+								}
+							}
+						}
+						want := nec == 1 && nin == 1 && nout == 0 && addrEq && amt == 0
+						if registered {
+							nburn++
+						}
+						if registered != want && len(bad) < 4 {
+							bad = append(bad, fmt.Sprintf("ECOutputs=%d FCTInputs=%d FCTOutputs=%d outputIsBurnAddress=%v outputAmount=%d: burn registered=%v, expected %v", nec, nin, nout, addrEq, amt, registered, want))
+						}
+					}
+				}
+			}
+		}
+	}
+	acc.report(c, r, rule, afb)
+	r.check(len(bad) == 0 && nburn == 1, rule, "ApplyFactoidBlock transaction shape table", c.pos(afb.Pos()), fmt.Sprintf("%d cells, burn registered in exactly 1", ncell), strings.Join(bad, "; ")+fmt.Sprintf(" (%d cells register a burn)", nburn))
 }
